@@ -123,6 +123,16 @@ func (c *ColNullable[T]) Array() *ColArr[Nullable[T]] {
 	}
 }
 
+// Prepare ensures Preparable column propagation.
+func (c *ColNullable[T]) Prepare() error {
+	if v, ok := c.Values.(Preparable); ok {
+		if err := v.Prepare(); err != nil {
+			return errors.Wrap(err, "prepare values")
+		}
+	}
+	return nil
+}
+
 func (c *ColNullable[T]) Reset() {
 	c.Nulls.Reset()
 	c.Values.Reset()
